@@ -183,6 +183,18 @@ fn load_units_from_dir(
             continue;
         }
 
+        // service and resource names are derived from the file name, which therefore has to be text
+        if name.to_str().is_none() {
+            results.push(Err(RuntimeError::Io(
+                format!("Error loading {path:?}"),
+                io::Error::new(
+                    io::ErrorKind::InvalidData,
+                    "file name is not valid UTF-8",
+                ),
+            )));
+            continue;
+        }
+
         debug!("Loading source unit file {path:?}");
 
         let unit = match SystemdUnitFile::load_from_path(&path) {
